@@ -151,6 +151,15 @@ def run(ctx, rep, tier):
                     cs = [sym_char() for _ in range(k)]
                     asm = [pred(cs[0])] + [word_char(c) for c in cs]
                     one("%s%s+%d%s" % (pre, kw, k, suf), sp(pre + kw + " ", asm) + cs + sp(suf, asm), asm, kw, cs)
+        # a sign followed by something that is no number: no prefix of the word is an argument, so the whole word is the offending one
+        if pred is NUM and kw != "-threads":
+            for pre in (PREFIXES[:2] if q else PREFIXES):
+                for k in ((2,) if q else (2, 3)):
+                    if q and pre and kw not in ("-uid", "-size", "-mtime"):
+                        continue
+                    cs = [sym_char() for _ in range(k)]
+                    asm = [z3.Or(cs[0] == ord("+"), cs[0] == ord("-")), NUM(cs[1])] + [word_char(c) for c in cs]
+                    one("%s%s+sign%d" % (pre, kw, k), sp(pre + kw + " ", asm) + cs, asm, kw, cs)
         # a word that opens a quote and never closes it is an ordinary (invalid) word: it is quoted whole
         if kw in ("-uid", "-size", "-type", "-threads", "-mtime", "-perm") or not q:
             for pre in PREFIXES[:2]:
